@@ -558,6 +558,38 @@ func hasRegex(key string) (bool, string) {
 	return utils.HasRegex(key)
 }
 
+// lowerRegexLiterals lowercases a regular expression that is going to be matched against
+// lowercased keys, leaving escape sequences alone: \S, \W, \D, \B, \A, \P{..}, \x4A must keep
+// their meaning (strings.ToLower would turn \S into \s).
+func lowerRegexLiterals(rx string) string {
+	if !strings.ContainsRune(rx, '\\') {
+		return strings.ToLower(rx)
+	}
+	var sb strings.Builder
+	sb.Grow(len(rx))
+	for i := 0; i < len(rx); i++ {
+		c := rx[i]
+		if c != '\\' || i+1 >= len(rx) {
+			if c >= 'A' && c <= 'Z' {
+				c += 'a' - 'A'
+			}
+			sb.WriteByte(c)
+			continue
+		}
+		// copy the escape sequence verbatim, including a {...} argument
+		sb.WriteByte(c)
+		i++
+		sb.WriteByte(rx[i])
+		if (rx[i] == 'p' || rx[i] == 'P' || rx[i] == 'x') && i+1 < len(rx) && rx[i+1] == '{' {
+			for i+1 < len(rx) && rx[i] != '}' {
+				i++
+				sb.WriteByte(rx[i])
+			}
+		}
+	}
+	return sb.String()
+}
+
 // caseSensitiveVariable returns true if the variable is case sensitive
 func caseSensitiveVariable(v variables.RuleVariable) bool {
 	res := false
@@ -597,7 +629,7 @@ func (r *Rule) AddVariable(v variables.RuleVariable, key string, iscount bool) e
 	var re *regexp.Regexp
 	if isRegex, rx := hasRegex(key); isRegex {
 		if !caseSensitiveVariable(v) {
-			rx = strings.ToLower(rx)
+			rx = lowerRegexLiterals(rx)
 		}
 		if vare, err := r.memoizeDo("regexp:"+rx, func() (any, error) { return regexp.Compile(rx) }); err != nil {
 			return err
@@ -644,7 +676,7 @@ func (r *Rule) AddVariableNegation(v variables.RuleVariable, key string) error {
 	var re *regexp.Regexp
 	if isRegex, rx := hasRegex(key); isRegex {
 		if !caseSensitiveVariable(v) {
-			rx = strings.ToLower(rx)
+			rx = lowerRegexLiterals(rx)
 		}
 		if vare, err := r.memoizeDo("regexp:"+rx, func() (any, error) { return regexp.Compile(rx) }); err != nil {
 			return err
